@@ -652,6 +652,147 @@ fn canon_json(resp: &Response) -> String {
     format!("{} cc={:?} headers={:?}", v, (resp.cache_control.public, resp.cache_control.max_age), resp.http_headers)
 }
 
+// ------------------------------------------------------------ introspection stream
+/// Every object key and every list element of the response below the
+/// operation root (keys of the `__typename` field excluded: add_set answers it
+/// without a resolve hook).  INTRO queries never alias `__typename`.
+fn tree_paths(v: &Value, cur: &mut Vec<Seg>, out: &mut Vec<Vec<Seg>>) {
+    match v {
+        Value::Object(m) => {
+            for (k, x) in m {
+                if k.as_str() == "__typename" {
+                    continue;
+                }
+                cur.push(Seg::F(k.to_string()));
+                out.push(cur.clone());
+                tree_paths(x, cur, out);
+                cur.pop();
+            }
+        }
+        Value::List(l) => {
+            for (i, x) in l.iter().enumerate() {
+                cur.push(Seg::I(i));
+                out.push(cur.clone());
+                tree_paths(x, cur, out);
+                cur.pop();
+            }
+        }
+        _ => {}
+    }
+}
+
+fn dyn_schema(k: usize) -> async_graphql::dynamic::Schema {
+    use async_graphql::dynamic::{Enum, Field, FieldFuture, FieldValue, Object, Schema, TypeRef};
+    let item = Object::new("Item")
+        .field(Field::new("x", TypeRef::named_nn(TypeRef::INT), |_| FieldFuture::new(async { Ok(Some(Value::from(5))) })))
+        .field(Field::new("tags", TypeRef::named_nn_list_nn(TypeRef::STRING), |_| {
+            FieldFuture::new(async { Ok(Some(Value::List(vec![Value::from("t"), Value::from("u")]))) })
+        }))
+        .field(Field::new("next", TypeRef::named("Item"), |_| FieldFuture::new(async { Ok(None::<FieldValue>) })));
+    let query = Object::new("Query")
+        .field(Field::new("a", TypeRef::named_nn(TypeRef::INT), |_| FieldFuture::new(async { Ok(Some(Value::from(1))) })))
+        .field(Field::new("b", TypeRef::named(TypeRef::INT), |_| FieldFuture::new(async { Ok(None::<FieldValue>) })))
+        .field(Field::new("kind", TypeRef::named_nn("Kind"), |_| FieldFuture::new(async { Ok(Some(Value::from("X"))) })))
+        .field(Field::new("item", TypeRef::named("Item"), |_| FieldFuture::new(async { Ok(Some(FieldValue::owned_any(0u8))) })))
+        .field(Field::new("items", TypeRef::named_nn_list_nn("Item"), |_| {
+            FieldFuture::new(async { Ok(Some(FieldValue::list(vec![FieldValue::owned_any(1u8), FieldValue::owned_any(2u8)]))) })
+        }));
+    let mut b = Schema::build("Query", None, None).register(item).register(query).register(Enum::new("Kind").item("X").item("Y"));
+    for i in 0..k {
+        b = b.extension(RecFactory(i));
+    }
+    b.finish().unwrap()
+}
+
+/// selection on `__Type`
+fn type_sel(r: &mut Rng, depth: usize, wide: bool) -> String {
+    let mut s = String::from("{");
+    let mut any = false;
+    let mut push = |s: &mut String, t: &str| {
+        s.push(' ');
+        s.push_str(t);
+    };
+    if r.chance(3, 4) {
+        push(&mut s, if r.chance(1, 6) { "n: name" } else { "name" });
+        any = true;
+    }
+    if r.chance(1, 2) {
+        push(&mut s, "kind");
+        any = true;
+    }
+    if r.chance(1, 6) {
+        push(&mut s, "description __typename");
+        any = true;
+    }
+    if wide && depth > 0 {
+        if r.chance(1, 2) {
+            let t = type_sel(r, depth - 1, false);
+            let a = if r.chance(1, 2) { format!(" args {{ name defaultValue type {} }}", type_sel(r, depth.saturating_sub(2), false)) } else { String::new() };
+            push(&mut s, &format!("fields {{ name isDeprecated{a} type {t} }}"));
+            any = true;
+        }
+        if r.chance(1, 3) {
+            push(&mut s, "interfaces { name }");
+            any = true;
+        }
+        if r.chance(1, 2) {
+            push(&mut s, &format!("possibleTypes {}", type_sel(r, 0, false)));
+            any = true;
+        }
+        if r.chance(1, 2) {
+            push(&mut s, "enumValues { name isDeprecated }");
+            any = true;
+        }
+        if r.chance(1, 4) {
+            push(&mut s, "inputFields { name }");
+            any = true;
+        }
+    }
+    if depth > 0 && r.chance(2, 3) {
+        push(&mut s, &format!("ofType {}", type_sel(r, depth - 1, false)));
+        any = true;
+    }
+    if !any {
+        push(&mut s, "name");
+    }
+    s.push_str(" }");
+    s
+}
+
+fn intro_query(r: &mut Rng, types: &[&str], data: &[&str]) -> String {
+    let mut parts: Vec<String> = vec![];
+    let which = r.below(3); // 0 __schema, 1 __type, 2 both
+    if r.chance(1, 2) {
+        parts.push(r.pick(data).to_string());
+    }
+    if which != 1 {
+        let mut s = String::from("__schema {");
+        if r.chance(1, 2) {
+            s.push_str(" queryType { name } mutationType { name kind }");
+        }
+        if r.chance(2, 3) {
+            let inner = if r.chance(1, 3) { "{ name kind enumValues { name } possibleTypes { name } }".to_string() } else { type_sel(r, 0, false) };
+            s.push_str(&format!(" types {inner}"));
+        }
+        if r.chance(1, 3) {
+            s.push_str(" directives { name locations args { name } }");
+        }
+        if s.ends_with('{') {
+            s.push_str(" queryType { name }");
+        }
+        s.push_str(" }");
+        parts.push(s);
+    }
+    if r.chance(1, 3) {
+        parts.push(r.pick(data).to_string());
+    }
+    if which != 0 {
+        let t = r.pick(types);
+        parts.push(format!("__type(name: \"{t}\") {}", type_sel(r, 3, true)));
+    }
+    format!("{{ {} }}", parts.join(" "))
+}
+
 // ------------------------------------------------------------ printers
 fn g_segs(it: &mut Interner, p: &[Seg]) -> String {
     g_list(p.iter(), |s| match s {
@@ -956,6 +1097,81 @@ fn main() {
                         k > 0
                     );
                     writeln!(out, "VAR\t({}%N, {}, {})\t{meta}", k, g_bool(same), g_list(hooks.iter(), |e| g_ev(&mut it, e))).unwrap();
+                }
+            }
+        }
+    }
+
+    // introspection stream: sub-fields of __schema / __type alone and mixed with data fields, on the
+    // static family schema and on a dynamic schema, with 1..3 recording extensions; the resolve hooks
+    // are compared with the response tree
+    {
+        let dyns: Vec<async_graphql::dynamic::Schema> = (0..4).map(dyn_schema).collect();
+        let s_types = ["Query", "Mutation", "A", "Node", "Named", "Pair", "Kind", "Int", "Nope"];
+        let s_data = ["id", "k0: name", "a { id name }", "bs { id }", "grid", "nodes { id }", "__typename"];
+        let d_types = ["Query", "Item", "Kind", "Int", "Nope"];
+        let d_data = ["a", "k0: b", "kind", "item { x tags next { x } }", "items { x tags }", "__typename"];
+        let fixed: Vec<&str> = vec![
+            "{ __type(name: \"Query\") { name fields { name } } }",
+            "{ __schema { queryType { name } } }",
+            "{ __schema { types { name kind } } }",
+            "{ __schema { types { name enumValues { name } possibleTypes { name } } directives { name locations args { name type { name kind ofType { name } } } } } }",
+            "{ __type(name: \"Query\") { kind fields { name args { name } type { name kind ofType { name kind ofType { name kind ofType { name } } } } } } }",
+            "{ __type(name: \"Kind\") { name enumValues { name isDeprecated } inputFields { name } interfaces { name } } }",
+            "{ __type(name: \"Nope\") { name } }",
+            "{ __schema { mutationType { name } subscriptionType { name } } __type(name: \"Int\") { name kind } }",
+        ];
+        let n_intro = 8 + (a.n / 16).min(600);
+        let mut rr = rng.fork();
+        for qi in 0..n_intro {
+            for dynamic in [false, true] {
+                let text = if qi < fixed.len() {
+                    let base = fixed[qi].to_string();
+                    // mixed with data fields
+                    if qi % 2 == 1 { base.replacen("{ ", if dynamic { "{ a items { x tags } " } else { "{ id bs { id } " }, 1) } else { base }
+                } else if dynamic {
+                    intro_query(&mut rr, &d_types, &d_data)
+                } else {
+                    intro_query(&mut rr, &s_types, &s_data)
+                };
+                let mut base_json = String::new();
+                for k in 0..4 {
+                    LOG.lock().unwrap().clear();
+                    let resp = if dynamic {
+                        block_on(dyns[k].execute(Request::new(text.clone())))
+                    } else {
+                        let w = Arc::new(World { nodes: small_nodes(vec![(0, "a", Out::Ref(2)), (0, "bs", Out::List(vec![Out::Ref(3), Out::Ref(3)])), (0, "nodes", Out::List(vec![Out::Ref(2), Out::Ref(4)])), (0, "grid", Out::List(vec![Out::List(vec![Out::Int(1)])]))]), ..Default::default() });
+                        block_on(schemas[0][k].execute(Request::new(text.clone()).data(w)))
+                    };
+                    let hooks = std::mem::take(&mut *LOG.lock().unwrap());
+                    let json = canon_json(&resp);
+                    if k == 0 {
+                        base_json = json.clone();
+                        continue;
+                    }
+                    if !resp.errors.is_empty() {
+                        writeln!(out, "INTROSKIP\t\t{}", jstr(&format!("{} -> {}", text, resp.errors[0].message))).unwrap();
+                        break;
+                    }
+                    let mut tree = vec![];
+                    tree_paths(&resp.data, &mut vec![], &mut tree);
+                    let same = json == base_json;
+                    let nh = hooks.iter().filter(|e| matches!(e, Ev::Enter(0, Hk::Field(..) | Hk::Item(..)))).count();
+                    let meta = format!(
+                        "{{\"text\":{},\"impl\":{},\"nontrivial\":true}}",
+                        jstr(&format!("[introspection {} k={k}] {}", if dynamic { "dynamic" } else { "static" }, text)),
+                        jstr(&format!("response positions={} resolve hooks seen by extension 0={} same_as_k0={}", tree.len(), nh, same))
+                    );
+                    writeln!(
+                        out,
+                        "INTRO\t({}%N, {}, {}, {}, {})\t{meta}",
+                        k,
+                        g_bool(same),
+                        g_bool(dynamic),
+                        g_list(hooks.iter(), |e| g_ev(&mut it, e)),
+                        g_list(tree.iter(), |p| g_segs(&mut it, p))
+                    )
+                    .unwrap();
                 }
             }
         }
